@@ -28,6 +28,8 @@ def main(argv):
                 seed = run_seed(boot.master_seed(), prop, wname, i)
                 plan = w.generate(rng_for(seed), (prop,), tier)
                 plan["run_seed"], plan["index"] = seed, i
+                from .core import finish_plan
+                finish_plan(plan, seed)
                 out[str(i)] = "plan:" + hashlib.sha256(jdump(plan).encode()).hexdigest()
                 continue
             plan, ctx = batch._one(wname, prop, boot.master_seed(), i, tier)
